@@ -782,9 +782,13 @@ pub fn triggers(src: &str, root: &SyntaxNode) -> Vec<&'static str> {
             // becomes part of the identifier (`$#n _(x)$` -> `$#n_(x)$`, a call of `n_`).
             K::MathAttach => {
                 let kids: Vec<&SyntaxNode> = f.node.children().collect();
-                let has_hash_base = kids.first().is_some_and(|b| syn::any_node(b, &mut |x| x.kind() == K::Hash));
-                let spaced_underscore = kids.windows(2).any(|w| w[0].kind() == K::Space && w[1].kind() == K::Underscore);
-                if has_hash_base && spaced_underscore {
+                // embedded code anywhere before a spaced underscore (base or superscript)
+                let hit = (1..kids.len()).any(|i| {
+                    kids[i].kind() == K::Underscore
+                        && kids[i - 1].kind() == K::Space
+                        && kids[..i - 1].iter().any(|b| b.kind() == K::Hash || syn::any_node(b, &mut |x| x.kind() == K::Hash))
+                });
+                if hit {
                     add("R23");
                 }
             }
